@@ -21,6 +21,11 @@ RULE = ("random sessions of 1..30 messages over 1..3 documents with the real `uc
 LIB = "let traceid = 1;\nlet val = 7;\nlet mk = func (x) => {v = x, s = \"s\"};\nlet cfg = {host = \"h\", port = 80};\n"
 
 
+LIBNAME = "lib/shared.ucg"
+LIB_VARIANTS = [LIB, LIB.replace("let val = 7;", "let val = \"seven\";"), LIB.replace("port = 80", "prt = 80"), "let val = ;\n", "",
+                LIB.replace("let mk = func (x)", "let mk = func (x, y)"), LIB + "let extra = 1;\n", "let traceid = 1;\nlet val = 7;\n"]
+
+
 def rand_text(r, probe):
     x = r.random()
     if x < 0.35:
@@ -178,9 +183,14 @@ def run_session(r, probe, res, sid):
         open(os.path.join(root, "lib", "shared.ucg"), "w").write(LIB)
         open(os.path.join(root, "ondisk.ucg"), "w").write("let disk = 1;\nlet other = {a = disk};\n")
         names = ["doc%d.ucg" % i for i in range(r.randint(1, 3))]
+        script = []
+        if r.random() < 0.3:
+            # the library on disk is itself one of the variants (also an unparsable one)
+            disk_lib = r.choice(LIB_VARIANTS)
+            open(os.path.join(root, "lib", "shared.ucg"), "w").write(disk_lib)
+            script.append(["disk", LIBNAME, disk_lib])
         client = lsp.LspClient(root, tp.path("home"))
         docs = {}            # uri -> current text or None when closed
-        script = []
         witness = {"script": script}
         st, resp = client.initialize(root)
         if st != "ok":
@@ -190,6 +200,25 @@ def run_session(r, probe, res, sid):
         nmsg = r.randint(1, 30)
         failed = False
         for k in range(nmsg):
+            if r.random() < 0.12:
+                # the on-disk library the documents import is opened / edited (also into a broken text) / closed in the editor
+                uri = uri_of(root, LIBNAME)
+                if docs.get(uri) is None:
+                    text = r.choice(LIB_VARIANTS)
+                    script.append(["didOpen", LIBNAME, text])
+                    client.notify("textDocument/didOpen", {"textDocument": {"uri": uri, "languageId": "ucg", "version": 1, "text": text}})
+                    docs[uri] = text
+                elif r.random() < 0.6:
+                    text = r.choice(LIB_VARIANTS)
+                    script.append(["didChange", LIBNAME, text])
+                    client.notify("textDocument/didChange", {"textDocument": {"uri": uri, "version": k + 2}, "contentChanges": [{"text": text}]})
+                    docs[uri] = text
+                else:
+                    script.append(["didClose", LIBNAME])
+                    client.notify("textDocument/didClose", {"textDocument": {"uri": uri}})
+                    docs[uri] = None
+                res.count("library-edit-events")
+                continue
             name = r.choice(names)
             uri = uri_of(root, name)
             op = r.random()
@@ -236,6 +265,19 @@ def run_session(r, probe, res, sid):
                 failed = True
                 break
             check_ranges(kind, resp.get("result"), uri, docs, root, res, witness)
+        if not failed and any(sc[1] == LIBNAME for sc in script):
+            # the editor overlay of the library goes away: from here on only the disk counts again.  Every open document
+            # is then touched (same text, new version) so that its diagnostics are recomputed after the close.
+            luri = uri_of(root, LIBNAME)
+            if docs.get(luri) is not None:
+                script.append(["didClose", LIBNAME])
+                client.notify("textDocument/didClose", {"textDocument": {"uri": luri}})
+                docs[luri] = None
+            for uri, text in list(docs.items()):
+                if text is not None:
+                    script.append(["didChange", os.path.relpath(uri[7:], root), text])
+                    client.notify("textDocument/didChange", {"textDocument": {"uri": uri, "version": 1000}, "contentChanges": [{"text": text}]})
+            res.count("sessions-with-library-edits")
         if not failed:
             # synchronise: a request answered means all earlier notifications have been handled
             st, resp = client.request("workspace/symbol", {"query": ""}, timeout=10.0)
@@ -357,6 +399,9 @@ def replay_script(script):
         os.makedirs(tp.path("home"))
         open(os.path.join(root, "lib", "shared.ucg"), "w").write(LIB)
         open(os.path.join(root, "ondisk.ucg"), "w").write("let disk = 1;\nlet other = {a = disk};\n")
+        for s in script:
+            if s[0] == "disk":
+                open(os.path.join(root, s[1]), "w").write(s[2])
         client = lsp.LspClient(root, tp.path("home"))
         docs = {}
         witness = {"script": script}
@@ -367,6 +412,8 @@ def replay_script(script):
         for s in script:
             kind, name = s[0], s[1]
             uri = uri_of(root, name)
+            if kind == "disk":
+                continue
             if kind == "didOpen":
                 client.notify("textDocument/didOpen", {"textDocument": {"uri": uri, "languageId": "ucg", "version": 1, "text": s[2]}})
                 docs[uri] = s[2]
@@ -414,6 +461,22 @@ def replay_script(script):
             st, rc = client.shutdown()
             if st != "ok" or rc != 0:
                 res.violation(["unclean-shutdown"], witness, {})
+            fresh = lsp.LspClient(root, tp.path("home"))
+            st, _ = fresh.initialize(root)
+            if st == "ok":
+                for uri, text in docs.items():
+                    if text is None:
+                        continue
+                    fresh.notify("textDocument/didOpen", {"textDocument": {"uri": uri, "languageId": "ucg", "version": 1, "text": text}})
+                    st2, _ = fresh.request("workspace/symbol", {"query": ""}, timeout=10.0)
+                    if st2 != "ok":
+                        break
+                    a = sorted(map(lsp.diag_key, fd.get(uri, [])), key=repr)
+                    b = sorted(map(lsp.diag_key, lsp.latest_diagnostics(fresh.notifications).get(uri, [])), key=repr)
+                    if a != b:
+                        res.violation(["session-diagnostics-differ-from-fresh-server"], witness, {"session": a[:4], "fresh": b[:4]})
+                fresh.shutdown()
+            fresh.kill()
         client.kill()
     finally:
         probe.stop()
